@@ -34,13 +34,14 @@ def run(ck):
     P, A = ex["h_c20"], ex["h_c20a"]
     # policies are ordered: creator_file by-directory x valid_seteuid {own, approve, refuse} come first (--ncfg=3)
     if ck.tier == "quick":
-        ck.explore(P, ["--depth=4", "--ncfg=3", "--kinds=2"], "d4-by-directory", budget=0, deadline_s=110, jobs=JOBS)
-        ck.explore(P, ["--depth=3", "--ncfg=12", "--kinds=3"], "d3-all-policies", budget=0, deadline_s=90, jobs=JOBS)
-        ck.explore(A, ["--depth=2", "--ncfg=12", "--kinds=3"], "d2-all-policies-asan", budget=0, deadline_s=30, jobs=JOBS)
+        ck.explore(P, ["--depth=4", "--cfg=0", "--kinds=2"], "d4-by-directory-own", budget=0, deadline_s=110, jobs=JOBS)
+        ck.explore(P, ["--depth=3", "--ncfg=12", "--kinds=2"], "d3-all-policies", budget=0, deadline_s=90, jobs=JOBS)
+        ck.explore(A, ["--depth=2", "--ncfg=12", "--kinds=3"], "d2-all-policies-asan", budget=0, deadline_s=35, jobs=JOBS)
     else:
+        # deadlines are sized for a heavily loaded machine (sum 40 min)
         ck.explore(P, ["--depth=5", "--cfg=0", "--kinds=2"], "d5-by-directory-own", budget=0, deadline_s=800, jobs=JOBS)
         ck.explore(P, ["--depth=4", "--ncfg=12", "--kinds=3"], "d4-all-policies", budget=0, deadline_s=1200, jobs=JOBS)
-        ck.explore(A, ["--depth=3", "--ncfg=12", "--kinds=3"], "d3-all-policies-asan", budget=0, deadline_s=350, jobs=JOBS)
+        ck.explore(A, ["--depth=3", "--ncfg=12", "--kinds=3"], "d3-all-policies-asan", budget=0, deadline_s=400, jobs=JOBS)
     ck.finish(vlib.mc_coverage(ck.parts, RULE), assumptions=ASSUME)
 
 
